@@ -30,6 +30,8 @@ CHECKS = {
          "for every enumerated term the returned factors are densified and checked for exact triangularity, permutation-matrix form, reconstruction of the reference matrix, and (for Kronecker / BlockDiag inputs) factor-wise structure"),
  "C09": ("spectrum-controlled operators (PSD, general real with conjugate pairs / complex, singular PSD, Diagonal) and every structural rule nested to depth 2 x 17 functions x 8 algorithm settings x 3 operands; f(A)x from the eigendecomposition of the reference (scipy cross-check), algebraic identities",
          "for every enumerated (operator, function, algorithm) the action of the returned operator on 2-3 operands is compared with f(A)x computed from the reference eigendecomposition, plus sqrt-twice, pow(-1)-solves and integer-power identities"),
+ "C10": ("11 operator families with prescribed simple spectra (self-adjoint definite / indefinite, real with conjugate pairs, complex, Diagonal, Triangular lower/upper, Identity) x sizes x ALL 1<=k<=n x {LM, SM} x 11 algorithm settings (caps n, n+2, default); eigmax / eigmin",
+         "for every enumerated (family, n, k, which, algorithm) the returned values are compared as a multiset with the k extreme-modulus eigenvalues of the prescribed spectrum and every returned pair with the eigen-equation, independence and (self-adjoint input) orthonormality"),
 }
 PENDING = {}
 props = [json.loads(l) for l in open(os.path.join(ROOT, "properties.jsonl"))]
